@@ -234,6 +234,10 @@ def obs_C03(g, out):
         psi1d = E.tokamak_arrays(g.cfg["geometry"], g.cfg.get("nR", 65), g.cfg.get("nZ", 65), mirror=g.cfg.get("mirror", False),
                                  psi1d_rmax=g.cfg.get("psi1d_rmax"))[3]
         lo, hi = float(np.min(psi1d)), float(np.max(psi1d))
+        if g.cfg.get("gfile"):
+            # through a geqdsk file the profiles are given between the axis and the separatrix only
+            ax, bd, _ = E.gfile_psi_range(g.cfg["geometry"], g.cfg.get("nR", 65), g.cfg.get("nZ", 65), mirror=g.cfg.get("mirror", False))
+            lo, hi = min(ax, bd), max(ax, bd)
         if fpol0 is not None:
             fpol = lambda u: btsign * fpol0(np.clip(u, lo, hi))  # noqa: E731
         if pres0 is not None:
@@ -281,8 +285,14 @@ def obs_C03(g, out):
             for r in g.extra["regions"]:
                 x0, x1, y0, y1 = t["rects"][r["id"]]
                 if "wall" in r["kind"]:
-                    # the separatrix this leg hangs from: the psi of its X-point end
-                    lp = min(psis, key=lambda s: min(abs(s - r["psi_vals"][0]), abs(s - r["psi_vals"][-1])))
+                    # the separatrix this leg hangs from: psi at the X-point of its name (lower legs: the X-point below the axis, upper legs:
+                    # the one above), whichever radial segment of the leg this is
+                    xp = g.extra.get("x_points") or []
+                    if len(xp) >= 2 and ("lower" in r["eqname"] or "upper" in r["eqname"]):
+                        xz = min(xp, key=lambda q: q[1]) if "lower" in r["eqname"] else max(xp, key=lambda q: q[1])
+                        lp = float(eq.psi(xz[0], xz[1]))
+                    else:
+                        lp = min(psis, key=lambda s: min(abs(s - r["psi_vals"][0]), abs(s - r["psi_vals"][-1])))
                     pp = psi[x0:x1, y0:y1]
                     refl[x0:x1, y0:y1] = lp + sign * np.abs(pp - lp)
                 else:
